@@ -255,6 +255,10 @@ pub struct Plan {
     /// (new_stream_channel, request_bind, send_datagram): "every later operation completes"
     #[serde(default)]
     pub late_ops: bool,
+    /// extra acceptor tasks per endpoint calling accept_stream_channel concurrently with the first
+    /// (the call takes `&self`); each takes one stream and then stops accepting
+    #[serde(default)]
+    pub extra_acceptors: [usize; 2],
 }
 impl Plan {
     pub fn base() -> Plan {
@@ -272,6 +276,7 @@ impl Plan {
             accept_pace: 0,
             probe_leaks: false,
             late_ops: false,
+            extra_acceptors: [0, 0],
         }
     }
 }
@@ -367,6 +372,8 @@ pub struct Ledger {
     pub task_end: [Option<(u64, String)>; 2],
     pub mux_dropped: [Option<u64>; 2],
     pub accept_pending: [Option<u64>; 2],
+    /// number of accept calls currently pending per endpoint
+    pub accept_pending_n: [u32; 2],
     pub accept_closed: [Option<u64>; 2],
     pub probes: std::collections::BTreeMap<String, u64>,
     /// stream objects kept alive to the end of the run
@@ -938,15 +945,26 @@ async fn run_async(plan: Plan, sched: Sched, record: bool) -> DuoRun {
         if !plan.accept[me] {
             continue;
         }
+      for k in 0..(1 + plan.extra_acceptors[me].min(3)) {
         let Some(m) = muxes.borrow()[me].clone() else { continue };
         let (led2, seq2, sp2, plan2, cancel) = (led.clone(), seq.clone(), sp.clone(), plan.clone(), cancels[me].clone());
-        sim.spawn(&format!("acceptor{me}"), CLS_OTHER, async move {
+        sim.spawn(&if k == 0 { format!("acceptor{me}") } else { format!("acceptor{me}.{k}") }, CLS_OTHER, async move {
             loop {
                 sim_yields(plan2.accept_pace).await;
                 let inv = seq2.tick();
-                led2.borrow_mut().accept_pending[me] = Some(inv);
+                {
+                    let mut l = led2.borrow_mut();
+                    l.accept_pending[me] = Some(inv);
+                    l.accept_pending_n[me] += 1;
+                }
                 let r = cancel.run(m.accept_stream_channel()).await;
-                led2.borrow_mut().accept_pending[me] = None;
+                {
+                    let mut l = led2.borrow_mut();
+                    l.accept_pending_n[me] -= 1;
+                    if l.accept_pending_n[me] == 0 {
+                        l.accept_pending[me] = None;
+                    }
+                }
                 match r {
                     None => break,
                     Some(Ok(s)) => {
@@ -973,6 +991,11 @@ async fn run_async(plan: Plan, sched: Sched, record: bool) -> DuoRun {
                         let cx = Rc::new(SideCtx { tag, side: 1, wdir: 1, stream: RefCell::new(Some(s)), wakers: RefCell::new(vec![]), led: led2.clone(), seq: seq2.clone(), hold: sp3.hold });
                         sp2.spawn(&format!("w{tag}.1"), CLS_WRITER, writer_actor(cx.clone(), sp3.w.clone()));
                         sp2.spawn(&format!("r{tag}.1"), CLS_READER, reader_actor(cx, sp3.r.clone()));
+                        // an extra acceptor is a worker that takes one stream and is then busy
+                        // with it for good; the first acceptor keeps accepting
+                        if k > 0 {
+                            break;
+                        }
                     }
                     Some(Err(e)) => {
                         let now = seq2.tick();
@@ -986,6 +1009,7 @@ async fn run_async(plan: Plan, sched: Sched, record: bool) -> DuoRun {
                 }
             }
         });
+      }
     }
     // ---- openers
     for (tag, st) in plan.streams.iter().enumerate() {
